@@ -6,6 +6,7 @@ import (
 	"fmt"
 	"os"
 	"path/filepath"
+	"runtime"
 	"time"
 )
 
@@ -26,6 +27,7 @@ func main() {
 	replays := flag.String("replays", "/verif/replays", "replay directory")
 	known := flag.String("known", "/verif/known_findings.json", "known findings file")
 	escalated := flag.Bool("escalated", false, "escalated search after a proof/correspondence failure")
+	boost := flag.Bool("boost", false, "larger quick budget (the source of a modelled function changed)")
 	replay := flag.String("replay", "", "replay file to re-run")
 	flag.Parse()
 
@@ -35,7 +37,7 @@ func main() {
 		os.Exit(2)
 	}
 	must(os.MkdirAll(*work, 0o755))
-	c := &Ctx{Prop: *prop, Tier: *tier, Seed: *seed, Escalated: *escalated, R: NewRng(*seed), workDir: *work,
+	c := &Ctx{Prop: *prop, Tier: *tier, Seed: *seed, Escalated: *escalated, Boost: *boost, R: NewRng(*seed), workDir: *work,
 		replayDir: *replays, driver: *driver, seen: map[uint64]struct{}{}, start: time.Now(), maxSamp: 6}
 	c.Res = &Result{Property: *prop, Tier: *tier, Seed: *seed, Distribution: map[string]int{}, KnownHits: map[string]int{},
 		Extra: map[string]interface{}{}, Samples: []interface{}{}, Disagreements: []Disagreement{}, Violations: []Violation{}}
@@ -62,7 +64,17 @@ func main() {
 		c.replayDir = filepath.Join(*work, "replays")
 		r.replay(c, f.Replay)
 	} else {
-		r.run(c)
+		func() {
+			// a panic escaping from the library into the stream is itself a finding (and must not lose the run)
+			defer func() {
+				if x := recover(); x != nil {
+					buf := make([]byte, 6000)
+					n := runtime.Stack(buf, false)
+					c.Violate("panic", fmt.Sprintf("a library call panicked during the %s stream: %v", *prop, x), map[string]string{"panic": fmt.Sprint(x), "stack": string(buf[:n])})
+				}
+			}()
+			r.run(c)
+		}()
 	}
 	c.runModel()
 	c.Res.WallS = time.Since(c.start).Seconds()
